@@ -17,6 +17,16 @@ def Unshared(prog):
   return json.loads(json.dumps(prog))
 
 
+def ClearForm(prog, form):
+  """A copy of prog in which no node is marked to be printed in `form`."""
+  out = Unshared(prog)
+  def Fn(n):
+    if n.get('form') == form:
+      del n['form']
+  Walk(out, Fn)
+  return out
+
+
 def Walk(x, fn, _seen=None):
   """Applies fn to every dict node (pre-order), in place; a node object that
   is reachable along several paths is visited once."""
